@@ -119,7 +119,11 @@ func run(in *bufio.Scanner, w *bufio.Writer) {
 	n := uint32(0)
 	cam := common.Cam{X: 4, Y: 4, Fps: 1}
 	// raw frame: [bad, hot]; the parser writes the frame id (accepted-frame counter) into two pixels
+	edgeSeen := -1 // the border width the processor hands to the parser (must be the detector's: edge-pixels = 1 here)
 	parse := func(raw []byte, f *cptvframe.Frame, edge int) error {
+		if edge != 1 {
+			edgeSeen = edge
+		}
 		if raw[0] == 1 {
 			// like the real parsers: scribble, then reject
 			f.Pix[0][0] = uint16(garbage & 0xffff)
@@ -180,6 +184,10 @@ func run(in *bufio.Scanner, w *bufio.Writer) {
 					fmt.Fprintln(w, "< ret bad")
 				}
 			})
+			if edgeSeen >= 0 {
+				fmt.Fprintf(w, "< parser-edge got=%d want=1\n", edgeSeen)
+				edgeSeen = -1
+			}
 		case "b":
 			e.f = faults{win: true, can: true, ms: true, mp: b(f[1]), cs: true, cw: true, cp: b(f[2]), ts: true, tw: true, tp: true}
 			common.Guard(w, "process", func() {
